@@ -52,7 +52,18 @@ pub(crate) fn add_float_mod<W, R, T>(
             if b.is_zero() {
                 xerr(ManagedXError::new("modulo by zero", rt)?)
             } else {
-                let ret = xraise!(XValue::float(((a % b) + b) % b, &rt)?);
+                // floored remainder: a remainder of the wrong sign is shifted by one divisor. (Adding the
+                // divisor to every remainder and reducing again rounds: 59.99999999999999 % 60.0 was 0.0.)
+                let (a, b) = (*a, *b);
+                let r = a % b;
+                let m = if r == 0.0 {
+                    0.0_f64.copysign(b)
+                } else if (r < 0.0) != (b < 0.0) {
+                    r + b
+                } else {
+                    r
+                };
+                let ret = xraise!(XValue::float(m, &rt)?);
                 Ok(ManagedXValue::new(ret, rt)?.into())
             }
         }),
